@@ -61,6 +61,9 @@ struct Writer {
     stage_in_temp_dir: bool,
     /// the directory as handed to the library, when that is not the absolute path
     spelled: Option<String>,
+    /// what the application hands over as the value: 0 a regular file; a symbolic link to 1 a regular file that
+    /// stays, 2 a regular file that is deleted right after the write, 3 a directory
+    source_kind: u8,
 }
 
 /// How the application names the cache directory (index 0 = absolute path, as everywhere else).
@@ -75,7 +78,7 @@ impl Writer {
             std::fs::create_dir_all(&dir).unwrap();
             std::fs::create_dir_all(&app).unwrap();
         });
-        Writer { cache: kismet_cache::plain::Cache::new(dir.clone(), capacity), dir, app, n: 0, stage_in_temp_dir: false, spelled: None }
+        Writer { cache: kismet_cache::plain::Cache::new(dir.clone(), capacity), dir, app, n: 0, stage_in_temp_dir: false, spelled: None, source_kind: 0 }
     }
     /// As `new`, with the directory named relative to the working directory (which this changes:
     /// the caller restores it; workers are single-threaded processes here).
@@ -101,8 +104,20 @@ impl Writer {
         let n = self.n;
         let stage = self.stage_in_temp_dir;
         let app_src = self.app.join(format!("src{}", self.n));
+        let target = self.app.join(format!("target{}", self.n));
+        let kind = self.source_kind;
         if !stage {
-            shim::passthrough(|| std::fs::write(&app_src, format!("v{}", n)).unwrap());
+            shim::passthrough(|| match kind {
+                0 => std::fs::write(&app_src, format!("v{}", n)).unwrap(),
+                3 => {
+                    std::fs::create_dir_all(&target).unwrap();
+                    std::os::unix::fs::symlink(&target, &app_src).unwrap();
+                }
+                _ => {
+                    std::fs::write(&target, format!("v{}", n)).unwrap();
+                    std::os::unix::fs::symlink(&target, &app_src).unwrap();
+                }
+            });
         }
         let cache = &self.cache;
         let mut src = app_src.clone();
@@ -122,6 +137,9 @@ impl Writer {
         });
         shim::passthrough(|| {
             let _ = std::fs::remove_file(&src);
+            if kind == 2 {
+                let _ = std::fs::remove_file(&target);
+            }
         });
         let dir = self.spelled.clone().unwrap_or_else(|| self.dir.to_string_lossy().into_owned());
         // (the library may hand the listing a differently normalised spelling: compare what the paths resolve to)
@@ -165,6 +183,8 @@ pub enum Case {
     Huge { k: usize, draw: u64, writes: u32 },
     /// fresh-key writes (alternating set/put) into a directory the application names as SPELLINGS[spelling]
     Spelled { k: usize, spelling: usize, draw: u64 },
+    /// fresh-key writes whose values are symbolic links (see Writer::source_kind)
+    Linked { k: usize, source_kind: u8, draw: u64 },
     /// worst-case family at capacity k: fresh keys only, alternating (mode 0) or all put (mode 1)
     Family { k: usize, mode: u8, draw: u64 },
 }
@@ -178,6 +198,7 @@ impl Case {
             Case::BrokenTemp { k, writes, draw } => json!({"kind": "broken_temp", "k": k.to_string(), "writes": writes, "draw": draw.to_string()}),
             Case::Huge { k, draw, writes } => json!({"kind": "huge", "k": k.to_string(), "draw": draw.to_string(), "writes": writes}),
             Case::Spelled { k, spelling, draw } => json!({"kind": "spelled", "k": k.to_string(), "spelling": spelling, "directory_named": SPELLINGS[*spelling], "draw": draw.to_string()}),
+            Case::Linked { k, source_kind, draw } => json!({"kind": "linked", "k": k.to_string(), "source_kind": source_kind, "draw": draw.to_string()}),
             Case::Family { k, mode, draw } => json!({"kind": "family", "k": k.to_string(), "mode": mode, "draw": draw.to_string()}),
         }
     }
@@ -194,6 +215,7 @@ impl Case {
                 first: v["first"].as_array().map(|a| a.iter().map(num).collect()).unwrap_or_default(),
             },
             "broken_temp" => Case::BrokenTemp { k, writes: v["writes"].as_u64().unwrap() as u32, draw: num(&v["draw"]) },
+            "linked" => Case::Linked { k, source_kind: v["source_kind"].as_u64().unwrap() as u8, draw: num(&v["draw"]) },
             "spelled" => Case::Spelled { k, spelling: v["spelling"].as_u64().unwrap() as usize, draw: num(&v["draw"]) },
             "huge" => Case::Huge { k, draw: num(&v["draw"]), writes: v["writes"].as_u64().unwrap() as u32 },
             _ => Case::Family { k, mode: v["mode"].as_u64().unwrap() as u8, draw: num(&v["draw"]) },
@@ -318,6 +340,39 @@ pub fn run_case(case: &Case, rep: &mut Report) -> Vec<(String, String)> {
                     bad.push((
                         "too-many-files".into(),
                         format!("capacity {}: {} files after write {} ({} succeeded) although every trigger firing reached maintenance (bound {})", k, n, i, ok_writes, k + p),
+                    ));
+                    break;
+                }
+            }
+        }
+        Case::Linked { k, source_kind, draw } => {
+            let p = period(*k as u128) as usize;
+            let mut w = Writer::new(&sc, *k);
+            w.source_kind = *source_kind;
+            verif_hooks::script_trigger_draws(&[], Some(*draw));
+            verif_hooks::set_trigger_counter(0);
+            let mut since = 0usize;
+            for i in 0..(3 * (k + p) + 3) {
+                let (r, ran, _before, trace) = w.write(&format!("key{}", i), i % 2 == 0);
+                rep.transitions += trace.len() as u64;
+                if !matches!(r, Ok(Ok(()))) {
+                    bad.push(("error".into(), format!("write {} failed: {:?}", i, r)));
+                    break;
+                }
+                if ran {
+                    since = 0;
+                } else {
+                    since += 1;
+                    if since >= p {
+                        bad.push(("window-exceeded".into(), format!("capacity {}: {} consecutive writes without maintenance (window {})", k, since, p)));
+                        break;
+                    }
+                }
+                let n = w.file_count();
+                if n > k + p {
+                    bad.push((
+                        "too-many-files".into(),
+                        format!("capacity {}, values handed over as symbolic links (kind {}): {} entries after write {} (bound {})", k, source_kind, n, i, k + p),
                     ));
                     break;
                 }
@@ -454,7 +509,8 @@ pub fn run(tier: Tier, shard: Shard, rep: &mut Report) {
          the fresh-key families again with every source file staged in cache.temp_dir() (the documented workflow: temp_dir() is \
          not a write and must not use up the window); fresh-key writes while .kismet_temp cannot be listed (it is a regular file): \
          the firing writes report the error but the directory is still pruned on schedule; fresh-key writes for capacities 0..=12 with the \
-         directory named in 8 ways (absolute, relative, '.', the empty path, './cache/', 'cache//', 'cache/.', '../cache'); capacities 2^63, 3*2^62, usize::MAX-2..=usize::MAX: small draws fire at the first write, 2^64-1 with 1000 writes never \
+         directory named in 8 ways (absolute, relative, '.', the empty path, './cache/', 'cache//', 'cache/.', '../cache'); fresh-key writes for capacities 0..=12 whose values \
+         are symbolic links (to a file that stays, to a file deleted after the write, to a directory); capacities 2^63, 3*2^62, usize::MAX-2..=usize::MAX: small draws fire at the first write, 2^64-1 with 1000 writes never \
          panics. Every case is distinct. (4) One writer at capacity 2, 3, 5 over an over-full directory racing with an outsider that \
          deletes the oldest, a middle or the newest entry (all schedules with <= 2 preemptions): the bound holds after the write.",
         kmax, smallk, seqlen, kmax
@@ -534,6 +590,14 @@ pub fn run(tier: Tier, shard: Shard, rep: &mut Report) {
         for mode in 0..2u8 {
             for draw in [u64::MAX, (scale(k as u128) as u64).saturating_mul(period(k as u128) as u64 - 1).saturating_add(1)] {
                 take(Case::Family { k, mode, draw }, rep);
+            }
+        }
+    }
+    // values handed over as symbolic links (to a file that stays, to one deleted afterwards, to a directory)
+    for k in 0..=kmax.min(12) {
+        for source_kind in 1..=3u8 {
+            for draw in [u64::MAX, 1u64] {
+                take(Case::Linked { k, source_kind, draw }, rep);
             }
         }
     }
